@@ -84,6 +84,20 @@ fn render<T: std::fmt::Display>(l: &mut Local, v: &T, what: impl Fn() -> String)
     }
 }
 
+/// the same UTC offset carried by four different local time types: rendering depends on the offset only
+pub fn ltt_variant(l: &mut Local, off: i32, k: u64) -> LocalTimeType {
+    let v = match k % 4 {
+        0 => LocalTimeType::with_ut_offset(off),
+        1 => LocalTimeType::new(off, true, None),
+        2 => LocalTimeType::new(off, false, Some(b"GMT")),
+        _ => LocalTimeType::new(off, true, Some(b"+00")),
+    };
+    if off == 0 && k % 4 != 0 {
+        l.class("offset_zero_type_with_designation_or_dst_flag");
+    }
+    v.unwrap_or_else(|_| LocalTimeType::with_ut_offset(off).unwrap())
+}
+
 pub fn check_dt(l: &mut Local, dt: &DateTime) {
     let s = match render(l, dt, || facade::fmt_dt(dt)) {
         Some(s) => s,
@@ -149,10 +163,11 @@ pub fn run(ctx: &Ctx) -> Report {
     let mut rep = Report::new("C18");
     rep.rule = "cases = date-time values (UtcDateTime and DateTime, built through every constructor) whose to_string() is read back by M-text (an independent regular-grammar reader) and compared with the getters. \
                 Enumerated: 22 years (0, +-1, +-9, +-10, +-9999, +-10000, i32 extremes...) x 40 offsets (0, +-1, +-59, +-60, +-61, +-3599..+-3601, +-86399, 100h/1000h boundaries, i32 extremes, real-world half/quarter-hour zones) x field corners; \
-                random values from from_timespec_and_local with random i32 offsets. distinct_nontrivial = distinct (instant, offset, ns) triples."
+                every offset is carried by four local time types (plain, DST flag set, with a designation, both): the rendering depends on the offset only, in particular Z at offset 0; random values from from_timespec_and_local with random i32 offsets. distinct_nontrivial = distinct (instant, offset, ns) triples."
         .into();
     rep.required_classes = vec![
         "offset_zero_Z",
+        "offset_zero_type_with_designation_or_dst_flag",
         "offset_below_one_minute",
         "offset_below_one_hour",
         "offset_negative",
@@ -175,18 +190,33 @@ pub fn run(ctx: &Ctx) -> Report {
         return rep;
     }
     // wl 1: grid years x offsets x field corners through DateTime::new and UtcDateTime::new
-    let corners: [(u8, u8, u8, u8, u8, u32); 9] = [(1, 1, 0, 0, 0, 0), (12, 31, 23, 59, 59, 999_999_999), (2, 28, 9, 9, 9, 9), (10, 10, 10, 10, 10, 100_000_000), (6, 30, 23, 59, 60, 1), (9, 1, 1, 1, 1, 10), (12, 31, 23, 59, 60, 999_999_999), (1, 1, 0, 0, 60, 0), (12, 31, 23, 58, 60, 7)];
+    let corners: [(u8, u8, u8, u8, u8, u32); 9] = [
+        (1, 1, 0, 0, 0, 0),
+        (12, 31, 23, 59, 59, 999_999_999),
+        (2, 28, 9, 9, 9, 9),
+        (10, 10, 10, 10, 10, 100_000_000),
+        (6, 30, 23, 59, 60, 1),
+        (9, 1, 1, 1, 1, 10),
+        (12, 31, 23, 59, 60, 999_999_999),
+        (1, 1, 0, 0, 60, 0),
+        (12, 31, 23, 58, 60, 7),
+    ];
     run_enum(ctx, &mut rep, 1, (YEARS.len() * OFFSETS.len()) as u64, |l, _rng, i| {
         let y = YEARS[i as usize / OFFSETS.len()];
         let off = OFFSETS[i as usize % OFFSETS.len()];
-        let ltt = LocalTimeType::with_ut_offset(off).unwrap();
         let mut n = 0;
-        for (mo, d, h, mi, s, ns) in corners {
-            if let Ok(dt) = facade::dt_new(y, mo, d, h, mi, s, ns, ltt) {
-                check_dt(l, &dt);
-                n += 1;
-                if i % 97 == 5 && mo == 12 {
-                    l.sample(|| Json::obj().set("value", facade::fmt_dt(&dt)).set("to_string", dt.to_string()));
+        for (ci, (mo, d, h, mi, s, ns)) in corners.into_iter().enumerate() {
+            for k in 0..4u64 {
+                if k != 0 && off != 0 && (ci as u64 + i) % 4 != k {
+                    continue; // every variant at offset 0, one other variant per corner elsewhere
+                }
+                let ltt = ltt_variant(l, off, k);
+                if let Ok(dt) = facade::dt_new(y, mo, d, h, mi, s, ns, ltt) {
+                    check_dt(l, &dt);
+                    n += 1;
+                    if i % 97 == 5 && mo == 12 && k == 0 {
+                        l.sample(|| Json::obj().set("value", facade::fmt_dt(&dt)).set("to_string", dt.to_string()));
+                    }
                 }
             }
             if let Ok(u) = facade::utc_new(y, mo, d, h, mi, s, ns) {
@@ -202,7 +232,8 @@ pub fn run(ctx: &Ctx) -> Report {
     run_cases(ctx, &mut rep, 2, ctx.n(10_000, 300_000), |l, rng, _| {
         let mut n = 0;
         for _ in 0..per {
-            let off = match rng.below(4) {
+            let off = match rng.below(5) {
+                4 => 0,
                 0 => *rng.pick(&OFFSETS),
                 1 => rng.range(-100_000, 100_000) as i32,
                 2 => (rng.range(-26 * 4, 26 * 4) * 900) as i32,
@@ -214,7 +245,7 @@ pub fn run(ctx: &Ctx) -> Report {
                 _ => rng.range(-70_000_000_000, 260_000_000_000),
             };
             let ns = if rng.chance(1, 4) { *rng.pick(&[0u32, 1, 10, 999_999_999, 100_000_000, 123_456_789]) } else { rng.below(1_000_000_000) as u32 };
-            let ltt = LocalTimeType::with_ut_offset(off).unwrap();
+            let ltt = ltt_variant(l, off, rng.below(4));
             if let Ok(dt) = facade::dt_from_timespec_and_local(t, ns, ltt) {
                 check_dt(l, &dt);
                 n += 1;
